@@ -6,6 +6,7 @@ import (
 	"bytes"
 	"context"
 	"encoding/binary"
+	"encoding/json"
 	"fmt"
 	"math/rand"
 	"os"
@@ -46,6 +47,14 @@ type RunCfg struct {
 type Pub struct {
 	AfterMs int
 	Size    int64
+}
+
+func rcJSON(rc *RunCfg) string {
+	b, err := json.Marshal(rc)
+	if err != nil {
+		panic(err)
+	}
+	return string(b)
 }
 
 func (rc *RunCfg) String() string {
@@ -132,7 +141,7 @@ func execute(t *testing.T, w *World, rc *RunCfg, fk *Fake, rep *vh.Report) (out 
 		}
 	}
 	fk.Emit(map[string]any{"ev": "Reset", "start": rc.Start, "end": rc.End, "batch": rc.Batch, "nw": rc.NW, "cont": rc.Cont,
-		"init": rc.Init, "mode": rc.Mode, "kind": kinds, "sel": sels, "script": rc.Script, "rc": rc}, nil)
+		"init": rc.Init, "mode": rc.Mode, "kind": kinds, "sel": sels, "script": rc.Script, "rc": rcJSON(rc)}, nil)
 
 	opts := scanner.FetcherOptions{BatchSize: rc.Batch, ParallelFetch: rc.NW, StartIndex: rc.Start, EndIndex: rc.End, Continuous: rc.Cont}
 	done := make(chan error, 1)
@@ -606,7 +615,10 @@ func TestReplay(t *testing.T) {
 func randomCfg(rng *rand.Rand, tr int) *RunCfg {
 	rc := &RunCfg{Script: -1, Mode: "fetch", Matcher: "all", NMatch: 1}
 	rc.Init = int64(rng.Intn(MaxN - 3))
-	rc.Batch = 1 + rng.Intn(5)
+	if rng.Intn(2) == 0 {
+		rc.Init = int64(6 + rng.Intn(MaxN-5))
+	}
+	rc.Batch = []int{1, 1, 2, 2, 3, 3, 4, 5}[rng.Intn(8)]
 	rc.NW = 1 + rng.Intn(4)
 	rc.Cont = rng.Intn(3) == 0
 	if rng.Intn(2) == 0 {
@@ -617,6 +629,9 @@ func randomCfg(rng *rand.Rand, tr int) *RunCfg {
 		eff = rc.End
 	}
 	rc.Start = int64(rng.Intn(int(eff) + 1))
+	if rng.Intn(2) == 0 {
+		rc.Start = int64(rng.Intn(int(min(eff, 3)) + 1))
+	}
 	if !rc.Cont && rng.Intn(8) == 0 {
 		rc.Start = int64(rng.Intn(MaxN + 1)) // possibly beyond the end: nothing to fetch
 	}
